@@ -118,6 +118,7 @@ func NewTarget(targetURL string, options TargetOptions) (*Target, error) {
 	}
 
 	target.proxyHandler = target.createProxyHandler()
+	verifWrapProxy(target)
 
 	if options.BufferResponses {
 		target.proxyHandler = WithResponseBufferMiddleware(options.MaxMemoryBufferSize, options.MaxResponseBodySize, target.proxyHandler)
@@ -179,6 +180,7 @@ func (t *Target) Drain(timeout time.Duration) {
 		return
 	}
 	defer t.updateState(originalState)
+	verifPoint("drain.started", t.Target())
 
 	deadline := time.After(timeout)
 	toCancel := t.pendingRequestsToCancel()
@@ -198,6 +200,8 @@ WAIT_FOR_REQUESTS_TO_COMPLETE:
 			break WAIT_FOR_REQUESTS_TO_COMPLETE
 		}
 	}
+
+	verifPoint("drain.deadline", t.Target())
 
 	// Cancel any remaining requests.
 	for _, inflight := range toCancel {
@@ -258,6 +262,8 @@ func (t *Target) HealthCheckCompleted(success bool) {
 		}
 		newState = t.state
 	})
+
+	verifPoint("probe.updated", t.Target())
 
 	if newState != previousState {
 		slog.Info("Target health updated", "target", t.Target(), "state", newState.String(), "was", previousState.String())
